@@ -12,6 +12,7 @@
 import C4E.Distr1
 import C4E.Distributor
 import C4E.Bridge
+import C4E.Lemmas.DistrValidate
 namespace C4E.Props.C03
 open C4E C4E.Distr1
 
@@ -127,6 +128,18 @@ theorem bridge_checked_block (subs : List Distr.SubD) (w : World) (fl : List (Li
     r.1 - sumRem r.2 = 0 ∧ allNonneg r.2 := by
   simp only [Bridge.cfgHyps, Bool.and_eq_true] at hcfg
   exact books_after_block_bridge fl ψ w _ ⟨nonnegB_sound _ hnn, hbal, hu⟩ (allSubOkB_sound _ hcfg.1) hcfg.2
+
+/-- **C03 for every configuration accepted by the Go validation** (`Params.Validate`, modelled by
+    `Distr.paramsValid` and compared with the real validation on every generated configuration):
+    such a configuration meets the hypotheses of the core theorem, so for every inflow and every
+    pattern of failing bank calls the books are balanced after the block -/
+theorem validated_params_books (e : Distr.Env) (subs : List Distr.SubD) (hv : Distr.paramsValid e subs = true)
+    (w : World) (fl : List (List Bool)) (ψ : List Bool)
+    (hnn : Bridge.nonnegB w.states = true) (hu : 0 ≤ U w) (hbal : ∀ a, 0 ≤ w.bal a) :
+    let w1 := runSubsL fl w (subs.map Bridge.convSub)
+    let r := payout ψ w1.main w1.states
+    r.1 - sumRem r.2 = 0 ∧ allNonneg r.2 :=
+  bridge_checked_block subs w fl ψ (Distr.cfgHyps_of_paramsValid e subs hv) hnn hu hbal
 
 /-- full multi-denomination statement over the faithful model (target; see header). -/
 def books_step_full : Prop :=
